@@ -36,7 +36,12 @@ UNIT = Unit(
     properties=["C17"],
     prelude=["srcmodel"],
     rlimit=30,
-    trusted=[],
+    trusted=[
+        "prelude/srcmodel.rs: one model source / sink / seeker type (sync and async) whose methods have arbitrary results and log their arguments and results; stands for every type parameter (parametricity of the wrappers assumed)",
+        "ProgressBar::{inc, set_position, is_finished, finish_using_style} enter through the contracts verified in c07_position / pb_glue / bar_draw (position arithmetic modulo 2^64, finished flag)",
+        "Pin::new(&mut x) on an Unpin value and Pin::get_mut are the identity (tokio / futures impls); those crates are not available offline, the impls are checked at source level",
+        "R5: Result::map / Poll::map with a closure desugared to match",
+    ],
     items=[
         Decl("src/iter.rs", "struct", "ProgressBarIter"),
         Raw(SPEC),
